@@ -98,7 +98,7 @@ def C01(tier, seed, st):
         return ["E %s %s" % (lang, hx(e)) for el in ENT_LENS for e in gens.diagonal_entropies(el // 4 * 3, 3 if q else 40, start=rng.randrange(2048))]
     run_Q(res, warm_E_histories(rng, LANGS, e_ops), judge_op_generator)
     # generation after FAILED draws, and calls of different sizes after one another, in one process
-    run_Q(res, failed_draw_histories(rng, q) + resize_histories(rng, q), judge_op_draw)
+    run_Q(res, failed_draw_histories(rng, q) + resize_histories(rng, q) + piecewise_draw_histories(rng, q), judge_op_draw)
     # the same calls made by several goroutines at once
     concurrent_stream(res, rng, lambda: "E %s %s" % (rng.choice(LANGS), hx(rng.randbytes(rng.choice(ENT_LENS)))), programs=3 if q else 20)
     return res
@@ -166,7 +166,7 @@ def C05(tier, seed, st):
     def e_ops(lang):
         return ["E %s %s" % (lang, hx(rng.randbytes(rng.choice(ENT_LENS)))) for _ in range(6 if q else 40)]
     run_Q(res, warm_E_histories(rng, LANGS, e_ops), judge_op_generator)
-    run_Q(res, failed_draw_histories(rng, q), judge_op_draw)
+    run_Q(res, failed_draw_histories(rng, q) + piecewise_draw_histories(rng, q), judge_op_draw)
     lang5 = rng.choice(LANGS)
     concurrent_stream(res, rng, lambda: "E %s %s" % (lang5, hx(rng.randbytes(rng.choice(ENT_LENS)))), programs=3 if q else 20)
     return res
@@ -345,22 +345,60 @@ def kind(cls):
     return cls.split()[0] if cls else cls
 
 
+def go_quoted(tok, ascii_only=False):
+    """the body of Go's strconv.Quote / QuoteToASCII of a byte string (what %q / %+q print between the quotes)"""
+    out = []
+    i = 0
+    esc = {0x07: "\\a", 0x08: "\\b", 0x0c: "\\f", 0x0a: "\\n", 0x0d: "\\r", 0x09: "\\t", 0x0b: "\\v", 0x22: '\\"', 0x5c: "\\\\"}
+    while i < len(tok):
+        c = tok[i]
+        if c < 0x80:
+            out.append(esc.get(c) or (chr(c) if 0x20 <= c < 0x7f else "\\x%02x" % c))
+            i += 1
+            continue
+        ch = None
+        for ln in (2, 3, 4):
+            try:
+                ch = tok[i:i + ln].decode("utf-8")
+                if len(ch) == 1:
+                    break
+                ch = None
+            except UnicodeDecodeError:
+                ch = None
+        if ch is None:
+            out.append("\\x%02x" % c)
+            i += 1
+            continue
+        i += len(ch.encode())
+        if ch.isprintable() and not ascii_only:
+            out.append(ch)
+        elif ord(ch) < 0x10000:
+            out.append("\\u%04x" % ord(ch))
+        else:
+            out.append("\\U%08x" % ord(ch))
+    return "".join(out).encode()
+
+
 def same_class(icls, want):
     """does the implementation's error class match the expected one?  The property fixes the sentinels (by errors.Is)
     and, for an unknown word, only that the error is a different non-nil error whose MESSAGE NAMES the token: when the
-    message is not in the wording the harness can parse (class `other <hex of message>`), containment of the token's
-    bytes is what is checked; the position is compared only when the wording allows it to be parsed."""
+    message is not in the wording the harness can parse (class `other <hex of message>`), the message must contain the
+    token - verbatim, or in one of the escaped renderings Go's formatting verbs give it (%q, %+q, %x: a token with quotes,
+    control characters or invalid UTF-8 may legitimately be shown escaped); the position is compared only when the
+    wording allows it to be parsed."""
     if icls == want:
         return True
     if icls.startswith("other ") and want.startswith("unknown "):
         tok = unhx(want.split()[2])
         msg = unhx(icls.split()[1]) if len(icls.split()) > 1 else b""
+        if tok in msg or go_quoted(tok) in msg or go_quoted(tok, True) in msg or (tok and tok.hex().encode() in msg.lower()):
+            return True
         try:
-            plain = tok.decode("utf-8").isprintable() and b'"' not in tok and b"\\" not in tok
+            exotic = any(ord(ch) > 0x7f and not ch.isalnum() for ch in tok.decode("utf-8"))
         except UnicodeDecodeError:
-            plain = False
-        # a token that is not printable text may legitimately be shown quoted/escaped (e.g. %q): not judged
-        return tok in msg if plain else True
+            exotic = False
+        # (Python and Go may disagree on which rare non-ASCII code points are printable: such tokens are not judged)
+        return exotic
     return False
 
 
@@ -828,6 +866,23 @@ def near_word_items(rng, tier, langs=LANGS):
     return items
 
 
+def piecewise_draw_histories(rng, quick):
+    """single draws (and pairs) whose source delivers the needed bytes in several pieces: two halves, one byte at a time,
+    empty reads in between, the last piece together with io.EOF - each judged from its own script"""
+    hist = []
+    for lang in (rng.sample(LANGS, 3) if quick else LANGS):
+        for n in WORD_COUNTS:
+            need = n + n // 3
+            d = rng.randbytes(need)
+            shapes = [[(d[:8], None), (d[8:], None)], [(d[i:i + 1], None) for i in range(need)], [(d[:1], None), (b"", None), (d[1:], None)],
+                      [(d[:need - 1], None), (d[need - 1:], "eof")], [(p_, None) for p_ in gens.fragment(rng, d, rng.randrange(2, 6))],
+                      [(d[:need // 2], None), (d[need // 2:] + b"extra", None)]]
+            for sh in shapes:
+                hist.append(["N %d %s %s" % (n, lang, gens.script_str(sh))])
+            hist.append(["N %d %s %s" % (n, lang, gens.script_str(sh)) for sh in rng.sample(shapes, 2)])
+    return hist
+
+
 def C03(tier, seed, st):
     res = Result("C03")
     rng = random.Random(seed)
@@ -838,8 +893,7 @@ def C03(tier, seed, st):
     for lang in LANGS:
         for n in WORD_COUNTS:
             for _ in range(1 if q else 6):
-                idx = gens.indices_of_entropy(bytes(rng.choice((0, 0, 1, 2))) + rng.randbytes(n // 3 * 4))[:n]
-                idx = gens.indices_of_entropy((bytes(rng.choice((0, 1, 2))) + rng.randbytes(n // 3 * 4))[:n // 3 * 4])
+                idx = gens.indices_of_entropy((bytes(rng.choice((0, 1, 2, 4, 5, 8, n // 3 * 4 - 1))) + rng.randbytes(n // 3 * 4))[:n // 3 * 4])
                 for tag, b in gens.damaged(rng, lang, idx):
                     items.append((tag, lang, b, None))
                 # substitutions at each position
@@ -851,6 +905,10 @@ def C03(tier, seed, st):
                         items.append(("subst", lang, gens.sentence(lang, i2, b" "), None))
     items += affix_items(rng, tier)
     items += near_word_items(rng, tier)
+    for lang in LANGS:
+        for n in WORD_COUNTS:
+            for idx in ([0] * n, [2047] * n, [0] * (n - 1) + [rng.randrange(2048)], [0] * (n - 1) + [2047], [2047] + [0] * (n - 1), [0] * (n - 1) + [1]):
+                items.append(("degenerate-indices", lang, gens.sentence(lang, idx, b" "), None))
     # unsupported Language values never accept
     for u in UNSUPPORTED:
         idx = gens.indices_of_entropy(rng.randbytes(16))
@@ -899,6 +957,12 @@ def C03(tier, seed, st):
             for z in ((0,) if q else (0, 1, 2)):
                 e = bytes(z) + rng.randbytes(n // 3 * 4 - z)
                 prefixes.append((lang, n, gens.indices_of_entropy(e)[:n - 1]))
+    # prefixes whose entropy starts with MANY zero bytes (4, 5, 8, all but one, all): the recovered integer is short
+    for n in WORD_COUNTS:
+        el = n // 3 * 4
+        for z in (rng.sample([4, 5, 8, 12, el - 1, el], 1) if q else [3, 4, 5, 7, 8, 9, 12, 13, 16, el - 2, el - 1, el]):
+            e = bytes(z) + rng.randbytes(el - z)
+            prefixes.append((rng.choice(LANGS), n, gens.indices_of_entropy(e)[:n - 1]))
     lines = []
     for lang, n, pre in prefixes:
         for j in range(2048):
@@ -943,8 +1007,9 @@ def C15(tier, seed, st):
         t = gens.table(lang)
         for n in WORD_COUNTS:
             cs = n // 3
-            for _ in range(1 if q else 4):
-                idx = gens.indices_of_entropy(rng.randbytes(n // 3 * 4))
+            for rep_ in range(2 if q else 6):
+                zl = (0, rng.choice((4, 5, 8, n // 3 * 4 - 1)), 0, 1, 2, 3)[rep_]     # also entropies that start with many zero bytes
+                idx = gens.indices_of_entropy(bytes(zl) + rng.randbytes(n // 3 * 4 - zl))
                 # only the count is wrong
                 for k in (n - 1, n + 1, 9, 27, 11, 13):
                     ws = (idx * 3)[:k]
@@ -1351,6 +1416,11 @@ def C14(tier, seed, st):
         lines.append("S %s %s" % (hx(w), hx(w)))
     for tag, lang, b, _ in near_word_items(rng, tier):
         lines.append("C %s %s" % (lang, hx(b)))
+    # degenerate index patterns: every word the first / the last word of the list, zero prefix with any last word
+    for lang in LANGS:
+        for n in WORD_COUNTS:
+            for idx in ([0] * n, [2047] * n, [0] * (n - 1) + [rng.randrange(2048)], [0] * (n - 1) + [2047], [2047] + [0] * (n - 1), [0] * (n - 1) + [1]):
+                lines.append("C %s %s" % (lang, hx(gens.sentence(lang, idx, b" "))))
     for lang in LANGS:
         ws = [gens.table(lang)[i] for i in gens.indices_of_entropy(rng.randbytes(16))]
         for w in weird:
@@ -1652,6 +1722,9 @@ def s_inputs(rng, tier):
         if tag.startswith("ws-"):
             pairs.append((b, b""))
     pairs += [(b" ", b""), (b"  a  b ", b" "), ("　".encode(), b""), (b"a\tb", b"c\nd"), (b"a b", b"a  b")]
+    # U+0000 and other control characters, percent signs and format directives, in either argument
+    for x in (b"\x00", b"a\x00b", b"\x00\x00", b"a\x00", b"\x00mnemonic", b"100% secret", b"%s", b"%d%v", b"%%", b"a%", b"\x01\x7f", b"{{.}}", b"\\n"):
+        pairs += [(x, b"pw"), (b"abandon about", x), (x, x)]
     # unicode: compatibility characters, reordering marks, marks at the start of the passphrase
     pool = [x.encode() for x in gens.nfc_like_pool()]
     for _ in range(40 if q else 800):
@@ -1985,6 +2058,16 @@ def C17(tier, seed, st):
             sn[n] = b"\n".join([first] + ws) + b"\n"
         sn[names[1]] = b"aaaa\n" * 6 + b"aaa\n" + b"LPxx\nzz\n"      # "LP" at byte offset 34
         rounds.append(("signature-like", sn, True))
+        # files WITHOUT a final newline whose last word ends in a letter that is also an escape letter (n, r, t, ...),
+        # files ending in several newlines, a single word without newline
+        en = {}
+        for k, n in enumerate(names):
+            ws = [tool_word(rng) for _ in range(rng.choice((0, 1, 4, 20)))]
+            last = rng.choice([b"butto", b"lette", b"ca", "caf\u00e9".encode(), b"x"]) + ("n" if k % 2 == 0 else "rtabfvu0xNUsdq"[k % 14]).encode()
+            en[n] = b"\n".join(ws + [last]) + (b"" if k % 3 else b"\n\n\n")
+            if k % 3 == 2:
+                en[n] = b"\n\n" + en[n]
+        rounds.append(("last-word-endings", en, True))
         prev_dir = None
         for tag, served, judged in rounds:
             rc, log, outs, d = run_tool(served, workroot, reuse_dir=prev_dir if tag == "regenerate-shorter" else None)
